@@ -27,12 +27,12 @@ type effectEngine struct {
 	owned      map[string]bool
 }
 
-func (c *Ctx) regionFrom(roots []*ssa.Function) map[*ssa.Function]bool {
+func (c *Ctx) regionFrom(roots []*ssa.Function, stop map[*ssa.Function]bool) map[*ssa.Function]bool {
 	cg := c.CallGraph()
 	seen := map[*ssa.Function]bool{}
 	var walk func(f *ssa.Function)
 	walk = func(f *ssa.Function) {
-		if f == nil || seen[f] || !c.InModule(f) || f.Blocks == nil {
+		if f == nil || seen[f] || !c.InModule(f) || f.Blocks == nil || stop[f] {
 			return
 		}
 		seen[f] = true
@@ -52,7 +52,11 @@ func (c *Ctx) regionFrom(roots []*ssa.Function) map[*ssa.Function]bool {
 }
 
 func (c *Ctx) newEffectEngine(roots []*ssa.Function) *effectEngine {
-	e := &effectEngine{c: c, region: c.regionFrom(roots), entries: map[*ssa.Function]bool{}, freshParam: map[*ssa.Parameter]bool{}, allocator: map[*ssa.Function]bool{}, inEdges: map[*ssa.Function][]*callgraph.Edge{}, owned: map[string]bool{}}
+	return c.newEffectEngineStop(roots, nil)
+}
+
+func (c *Ctx) newEffectEngineStop(roots []*ssa.Function, stop map[*ssa.Function]bool) *effectEngine {
+	e := &effectEngine{c: c, region: c.regionFrom(roots, stop), entries: map[*ssa.Function]bool{}, freshParam: map[*ssa.Parameter]bool{}, allocator: map[*ssa.Function]bool{}, inEdges: map[*ssa.Function][]*callgraph.Edge{}, owned: map[string]bool{}}
 	for _, r := range roots {
 		e.entries[r] = true
 	}
